@@ -666,6 +666,60 @@ func rC02SplitFirst(w *World, r *Report) {
 		}
 		check(s.key, 0, "key")
 		check(s.val, 1, "value")
+		// every entry that contains a '=' is stored: inside the per-entry loop the write is guarded by nothing but
+		// the test that the split found a separator
+		{
+			sb := s.in.Block()
+			var loop map[*ssa.BasicBlock]bool
+			var header *ssa.BasicBlock
+			for _, h := range fn.Blocks {
+				if !h.Dominates(sb) {
+					continue
+				}
+				l := naturalLoop(h)
+				if len(l) > 1 && l[sb] && (loop == nil || len(l) < len(loop)) {
+					loop, header = l, h
+				}
+			}
+			for _, f := range factsAt(sb) {
+				if f.If == nil || loop == nil || !loop[f.If.Block()] || f.If.Block() == header {
+					continue // outside the per-entry loop, or the loop's own continuation test
+				}
+				okFact := false
+				x, y, op := f.X, f.Y, f.Op
+				if y != nil {
+					if _, isC := constInt(x); isC {
+						x, y = y, x
+						switch op {
+						case token.LSS:
+							op = token.GTR
+						case token.GTR:
+							op = token.LSS
+						case token.LEQ:
+							op = token.GEQ
+						case token.GEQ:
+							op = token.LEQ
+						}
+					}
+					k, isK := constInt(y)
+					if lc, isLen := lenOf(x); isLen && isK {
+						if c, isC := lc.(*ssa.Call); isC && calleeName(c) == "strings.SplitN" {
+							okFact = (op == token.GEQ && k == 2) || (op == token.GTR && k == 1) || (op == token.EQL && k == 2) || (op == token.NEQ && k == 1)
+						}
+					}
+					if c, isC := x.(*ssa.Call); isC && isK && calleeName(c) == "strings.Index" {
+						okFact = (op == token.GEQ && k == 0) || (op == token.GTR && k == -1) || (op == token.NEQ && k == -1)
+					}
+				} else if ex, isEx := f.X.(*ssa.Extract); isEx && f.Truth {
+					if c, isC := ex.Tuple.(*ssa.Call); isC && calleeName(c) == "strings.Cut" && ex.Index == 2 {
+						okFact = true
+					}
+				}
+				if !okFact {
+					problems = append(problems, "an entry is stored only under an extra condition ("+w.IPos(f.If)+"): well-formed key=value entries (an empty key or value included) would be rejected")
+				}
+			}
+		}
 		if len(problems) == 0 {
 			ru.OK("Save/pStringM", w.IPos(s.in), "key, value = SplitN(e, \"=\", 2)")
 		} else {
